@@ -234,6 +234,12 @@ fn case_strainsvec(t: &mut Tape, info: &mut CaseInfo) -> Result<(), String> {
     Ok(())
 }
 
+/// Entry point for the coverage-guided fuzz target.
+pub fn strainsvec_from_tape(tape: &[u32]) -> Result<(), String> {
+    let mut t = Tape::new(tape.to_vec());
+    case_strainsvec(&mut t, &mut CaseInfo::default())
+}
+
 // ------------------------------------------------------------------ (b) gradual calculators under moves / drops
 
 enum Typed {
